@@ -68,8 +68,47 @@ pub proof fn lemma_suffixes()
 {
 }
 
-// URL::parse is a pure function of its argument (deterministic); nothing else is known about it
+// URL::parse is a pure function of its argument (deterministic); nothing else is known about the components it returns
 pub uninterp spec fn url_path_spec(url: Seq<char>) -> Option<Seq<char>>;
+
+// ----- the url-build-parse dependency is NOT total -----
+// Read off its source (parse_authority: `port = extract_port(..).unwrap()`): behind "http://localhost" whatever precedes the
+// first '/' of the target is read as part of the authority, and a ':' there starts a port that must be a number - otherwise
+// parse_url PANICS.  The precondition below is the sufficient condition the callers in /repo establish
+// (URL::parse_request_target); conformance-tested: no panic for targets that satisfy it, panic for ":x/", "http://h/".
+pub open spec fn leading_of(t: Seq<char>) -> Seq<char> {
+    match split_once_spec(t, slash()) { Some(ab) => ab.0, None => t }
+}
+pub open spec fn colon_s() -> Seq<char> { seq![':'] }
+pub open spec fn target_ok(t: Seq<char>) -> bool { !has_sub(leading_of(t), colon_s()) }
+pub open spec fn dep_url_safe(url: Seq<char>) -> bool { exists|t: Seq<char>| #[trigger] request_url(t) == url && target_ok(t) }
+#[verifier::external_body]
+pub fn parse_url(url: &str) -> (res: Result<UrlComponents, String>)
+    requires dep_url_safe(url@),
+    ensures
+        res.is_ok() <==> url_path_spec(url@).is_some(),
+        res.is_ok() ==> res.unwrap().path@ == url_path_spec(url@).unwrap(),
+{ unimplemented!() }
+// the path of a request target as URL::parse_request_target reports it
+pub open spec fn target_path(t: Seq<char>) -> Option<Seq<char>> {
+    if target_ok(t) { url_path_spec(request_url(t)) } else { None }
+}
+// a target in origin form has an empty leading part
+pub proof fn lemma_origin_form_ok(q: Seq<char>)
+    requires q.len() > 0, q[0] == '/',
+    ensures target_ok(q), target_path(q) == url_path_spec(request_url(q)),
+{
+    axiom_split_once(q, slash());
+    assert(q.subrange(0, 1) =~= slash());
+    assert(has_sub(q, slash()));
+    let ab = split_once_spec(q, slash()).unwrap();
+    if ab.0.len() > 0 {
+        assert(ab.0[0] == q[0]);
+        assert(ab.0.subrange(0, 1) =~= slash());
+        assert(has_sub(ab.0, slash()));
+    }
+    assert(leading_of(q).len() == 0);
+}
 
 // ===== the documented lookup (properties C02, C09) =====
 pub open spec fn method_serves(m: Seq<char>) -> bool { m == METHOD.get@ || m == METHOD.head@ || m == METHOD.options@ }
@@ -86,7 +125,7 @@ pub open spec fn lookup_selects(path: Seq<char>) -> bool {
 pub open spec fn request_url(uri: Seq<char>) -> Seq<char> { seq!['h', 't', 't', 'p', ':', '/', '/'] + seq!['l', 'o', 'c', 'a', 'l', 'h', 'o', 's', 't'] + uri }
 
 pub open spec fn static_match(method: Seq<char>, uri: Seq<char>) -> bool {
-    let p = url_path_spec(request_url(uri));
+    let p = target_path(uri);
     method_serves(method) && uri != slash() && p.is_some() && inside(p.unwrap()) && lookup_selects(p.unwrap())
 }
 
@@ -100,7 +139,7 @@ pub proof fn lemma_match_is_method_independent(m1: Seq<char>, m2: Seq<char>, uri
 // ===== which file is read, and what is served for it (property C02) =====
 // the file Range::get_content_range_list reads for a target: served directory ++ path of the parsed target
 pub open spec fn target_file(uri: Seq<char>) -> Option<Seq<char>> {
-    let p = url_path_spec(request_url(uri));
+    let p = target_path(uri);
     if p.is_some() && inside(p.unwrap()) { Some(cwd() + p.unwrap()) } else { None }
 }
 // the single part that answers a request without a Range header for the regular file f: all of its bytes, its media type
@@ -125,6 +164,13 @@ pub proof fn axiom_url_plain_path(q: Seq<char>)
     ensures url_path_spec(request_url(q)) == Some(q),
 {
 }
+pub proof fn lemma_target_plain_path(q: Seq<char>)
+    requires q.len() > 0, q[0] == '/', plain_path(q),
+    ensures target_path(q) == Some(q),
+{
+    axiom_url_plain_path(q);
+    lemma_origin_form_ok(q);
+}
 // the file the documented lookup selects for the path p of the target (when lookup_selects(p))
 pub open spec fn selected(p: Seq<char>) -> Seq<char> {
     let sf = cwd() + p;
@@ -135,13 +181,13 @@ pub open spec fn regular(f: Seq<char>) -> bool { fs_is_file(f) && fs_openable(f)
 pub open spec fn s_range() -> Seq<char> { seq!['R', 'a', 'n', 'g', 'e'] }
 // the served representation of a target when the request carries no Range header
 pub open spec fn serves_whole(uri: Seq<char>, parts: Seq<ContentRange>) -> bool {
-    let p = url_path_spec(request_url(uri)).unwrap();
+    let p = target_path(uri).unwrap();
     parts.len() == 1 && whole_file_part(selected(p), parts[0])
 }
 // domain of the C02 statement for a target: it parses, lies under the root, is selected by the lookup, the selected file is a regular
 // file; the path holds no '#' (a '#' before the first '?' stays in the path and is cut off when the path is re-parsed)
 pub open spec fn c02_domain(uri: Seq<char>) -> bool {
-    let po = url_path_spec(request_url(uri));
+    let po = target_path(uri);
     po.is_some() && inside(po.unwrap()) && plain_path(po.unwrap())
         && lookup_selects(po.unwrap()) && regular(selected(po.unwrap()))
 }
@@ -155,7 +201,7 @@ pub proof fn lemma_target_of_suffix(p: Seq<char>, suf: Seq<char>)
     lemma_inside(p);
     assert(q[0] == p[0]);
     assert(plain_path(q)) by { assert forall|i: int| 0 <= i < q.len() implies #[trigger] q[i] != '?' && q[i] != '#' by { if i < p.len() { assert(q[i] == p[i]); } else { assert(q[i] == suf[i - p.len()]); } } }
-    axiom_url_plain_path(q);
+    lemma_target_plain_path(q);
     lemma_append_inside(p, suf);
     lemma_inside(q);
     assert(cwd() + q =~= cwd() + p + suf);
